@@ -188,6 +188,7 @@ type Cell struct {
 	Rev     int         // index into the scenario's revision list (-1: label names no revision, -2: no label)
 	Owner   string      // "" = this set; "none" = orphan; "otheruid"; "otherkind"; "noncontroller"
 	NoMatch bool        // labels do not match the selector
+	NoIdent bool        // the pod-name label is missing (identity must be repaired by an update)
 }
 
 func (c Cell) String() string {
@@ -211,6 +212,9 @@ func (c Cell) String() string {
 	}
 	if c.NoMatch {
 		s += "/nomatch"
+	}
+	if c.NoIdent {
+		s += "/noident"
 	}
 	return s
 }
@@ -263,7 +267,9 @@ func BuildPod(set *asv1.StatefulSet, ord int, c Cell, revName string, tmpl int, 
 	if c.NoMatch {
 		p.Labels["app"] = "other"
 	}
-	p.Labels["statefulset.kubernetes.io/pod-name"] = name
+	if !c.NoIdent {
+		p.Labels["statefulset.kubernetes.io/pod-name"] = name
+	}
 	if c.Rev != -2 {
 		p.Labels["controller-revision-hash"] = revName
 	}
